@@ -19,7 +19,7 @@ OpFailed(e, m2) ==
   UNION {
     IF ~AllKnownMembers(e.slots[s], echo) THEN {"C03.ForeignMember"}
     ELSE (IF ObsBag(e.slots[s], echo) = m2[s] THEN {}
-          ELSE IF s \in Target(o) THEN {"C03.SetMatchesModel"} ELSE {"C20.SetIsolation"})
+          ELSE IF s \in Target(o) THEN {"C03.SetMatchesModel"} ELSE {"C03.SetMatchesModel", "C20.SetIsolation"})
          \cup (IF e.len[s] = Len(e.slots[s]) THEN {} ELSE {"C03.LengthAgrees"})
          \cup (IF \A i \in 1..Len(e.slots[s]) : WellFormed(e.slots[s][i]) THEN {} ELSE {"C06.WellFormed"})
     : s \in Slots}
